@@ -92,7 +92,7 @@ func c02Alphabet(pos int, full bool) []c02Item {
 	// lastOffsetDelta lies (record count field and body agree with each other)
 	lods := map[int][]int32{1: {-1, -2, 1, 1<<31 - 1}, 2: {-1, -2, 0, 2, 1<<31 - 1}}
 	if !full {
-		lods = map[int][]int32{1: {-1, 1}, 2: {0}}
+		lods = map[int][]int32{1: {-1, 1, 1<<31 - 1}, 2: {0}}
 	}
 	for _, n := range []int{1, 2} {
 		for _, lod := range lods[n] {
@@ -418,7 +418,14 @@ func c02Run(hist *c02Hist, alpha [][]c02Item) (res c02Result) {
 				if pr.Base < next {
 					kind = "offsets reused"
 				}
-				res.viol = &c02Viol{c02Key(cul, restartSinceLast, "offset-arithmetic"), fmt.Sprintf("produce #%d (%s) acknowledged with BaseOffset %d, expected %d (%s): %s", i+1, it.Name, pr.Base, next, kind, prevDesc)}
+				key := c02Key(cul, restartSinceLast, "offset-arithmetic")
+				// the overstated-lastOffsetDelta mechanism predicts the wrong base exactly: the broker trusts the
+				// header, so the next base is previous base + lastOffsetDelta + 1 (a gap). Anything else after
+				// such a batch (e.g. a base BELOW the previous one) is another mechanism and gets its own key.
+				if cul != nil && len(cul.item.Phys) == 1 && int64(cul.item.Lod)+1 > int64(cul.item.Total) && pr.Base != cul.base+int64(cul.item.Lod)+1 {
+					key += ":next-base-is-not-base+lastOffsetDelta+1"
+				}
+				res.viol = &c02Viol{key, fmt.Sprintf("produce #%d (%s) acknowledged with BaseOffset %d, expected %d (%s): %s", i+1, it.Name, pr.Base, next, kind, prevDesc)}
 				res.sig = sig.String()
 				return
 			}
